@@ -64,7 +64,9 @@ CONSTANTS WsSeparates,          \* strict['whitespace-separates-paragraphs'] (de
           GpgMvLeadOK,          \* TRUE: GpgMvAgrees excludes leading comment+blank (unspecified zone)
           Keys,                 \* names used by the closed configuration
           MaxPara, MaxFields, MaxCont, MaxTotal,   \* bounds of the bounded configuration
+          ShapeMode,            \* 0: every value shape; 1: only "v" and "<empty>+MaxCont lines" (wide documents)
           ArmorHdrs,            \* set of numbers of armor header lines tried (subset of 0..2)
+          SigBools,             \* values tried for "blank line / armor header after BEGIN PGP SIGNATURE"
           Emit
 
 VARIABLES rd,     \* reader state (closed configuration)
@@ -212,7 +214,7 @@ DumpPara(p)   == Flat([i \in 1..Len(p) |-> DumpField(p[i])])
 DumpSep(P, sep) == Flat([i \in 1..Len(P) |-> IF i = 1 THEN DumpPara(P[i]) ELSE sep \o DumpPara(P[i])])
 Dump(P)       == DumpSep(P, <<BlankLn>>)
 
-ArmorShapes == [nh : ArmorHdrs, b : BOOLEAN, sb : BOOLEAN, sh : BOOLEAN]
+ArmorShapes == [nh : ArmorHdrs, b : BOOLEAN, sb : SigBools, sh : SigBools]
 HdrLn(i)    == Ln("ArmorHeader", 900 + i, 900 + i, TRUE)
 Armor(ls, a) == <<BeginMsgLn>> \o [i \in 1..a.nh |-> HdrLn(i)] \o <<BlankLn>> \o ls
                 \o (IF a.b THEN <<BlankLn>> ELSE <<>>) \o <<BeginSigLn>>
@@ -264,7 +266,8 @@ DoneGrows    == [][Len(rd'.done) >= Len(rd.done) /\ SubSeq(rd'.done, 1, Len(rd.d
 
 ----------------------------------------------------------------------------
 (* bounded configuration: all documents *)
-Shapes == [e : BOOLEAN, n : 0..MaxCont]
+Shapes == IF ShapeMode = 0 THEN [e : BOOLEAN, n : 0..MaxCont]
+          ELSE {[e |-> FALSE, n |-> 0], [e |-> TRUE, n |-> MaxCont]}
 TextId(p, f, j) == 100 * p + 10 * f + j
 ValueOf(p, f, sh) == <<IF sh.e THEN NoText ELSE TextId(p, f, 0)>> \o [j \in 1..sh.n |-> TextId(p, f, j)]
 DocOf(d) == [p \in 1..Len(d) |-> [f \in 1..Len(d[p]) |-> [k |-> f, v |-> ValueOf(p, f, d[p][f])]]]
